@@ -499,8 +499,16 @@ class C15Clauses(IdentityTable):
                     want = I.model.dim_of(mval)
                     got = M.d_norm(value.dimension.exponents)
                     if got != want:
-                        I.violation("C15.load", "C15/%s/unit/wrong-dimension-after-load%s" % (
-                            blob["codec"], "/restarted" if I.restarted else ""),
+                        epoch = ""
+                        if I.stale_epoch:
+                            # the listed dimension-epoch finding: this world decoded something across a
+                            # Dimension.define and the unit (or a factor) carries an older, narrower tuple
+                            width = len(L.Dimension._fundamental) + 1
+                            dims = [value.dimension] + [f.dimension for f in value.factors]
+                            if any(len(d.exponents) != width for d in dims):
+                                epoch = "/after-dimension-define"
+                        I.violation("C15.load", "C15/%s/unit/wrong-dimension-after-load%s%s" % (
+                            blob["codec"], epoch, "/restarted" if I.restarted else ""),
                             {"nf": M.nf_str(mval), "got": list(got), "want": list(want)})
                         return {"C15.load": "VIOLATED"}
                 except (KeyError, AttributeError):
